@@ -61,7 +61,7 @@ def _table_from_asm(asm):
 def check_layout(tag, prelude_text, real_includes, fields, sizes=(), workdir=None, real_defines=()):
     """fields: [(qualified type, [field,...])]; sizes: types whose sizeof must agree.  Nothing is linked or run:
     both translation units are compiled to assembly and the constant table is read back."""
-    workdir = workdir or os.path.join(VERIF, "build", "layout_" + tag)
+    workdir = workdir or os.path.join(VERIF, "build", "layout_%s_%d" % (tag, os.getpid()))   # per process: checks may run concurrently
     os.makedirs(workdir, exist_ok=True)
     body, names = _body(fields, sizes)
     kinds = KINDS.replace("template <class C, class M> int vkind", "template <class C, class M> constexpr int vkind") \
